@@ -8,6 +8,7 @@ import Fdo.Drv.TO0
 import Fdo.Drv.TO1
 import Fdo.Drv.TO2Dev
 import Fdo.Drv.Tunnel
+import Fdo.Drv.Handover
 import Fdo.Drv.Chunk
 import Fdo.Drv.Rv
 /-
@@ -28,6 +29,7 @@ def handlers : List (String × (String → List String → Option String)) := [
   ("to1.", Drv.TO1.handle),
   ("to2dev.", Drv.TO2Dev.handle),
   ("tunnel.", Drv.Tunnel.handle),
+  ("handover.", Drv.Handover.handle),
   ("chunk.", Drv.Chunk.handle),
   ("rv.", Drv.Rv.handle),
 ]
